@@ -195,6 +195,9 @@ func rulesC13(c *Ctx) {
 			if !ok || br.Tok.String() != "continue" {
 				return true
 			}
+			if st := p.StateAt(fn, br); st != nil && p.Holds(st, p.ResultNilAtom(true, nil, "scheduler.PartitionContext.UpdateAllocation")) {
+				return true // the item was applied: nothing to reject
+			}
 			n++
 			rej := p.PrecededBy(fn, br, func(b ast.Node) bool {
 				as, ok := b.(*ast.AssignStmt)
@@ -212,10 +215,30 @@ func rulesC13(c *Ctx) {
 			return true
 		})
 		c.Floor("C13.e", "skip paths in processAllocations", n, 3)
+		// the announcement must not look at the allocation before knowing it was created
 		for _, call := range p.callsIn(fn, "scheduler.PartitionContext.UpdateAllocation") {
 			st := p.StateAt(fn, call)
 			nonNil := len(call.Args) == 1 && p.Holds(st, p.NilAtom(false, func(t Term) bool { return p.Same(t, T(call.Args[0], st)) }))
 			c.Check("C13.e", "UpdateAllocation only receives a converted allocation", call, nonNil, "UpdateAllocation(alloc) is reached with a possibly nil conversion result: UpdateAllocation ignores nil without an error, so the invalid item is dropped silently")
+		}
+	}
+
+	// ------------------------------------------------------------------ C13.f rejected registration leaves no trace
+	c.Rule("C13.f", "a node registration only changes the partition totals after the node collection accepted the node (duplicate ids are refused there); a rejected application is not added to a queue")
+	if fn := c.MustFunc("C13.f", "scheduler.PartitionContext.addNodeToList"); fn != nil {
+		calls := p.callsIn(fn, "scheduler.PartitionContext.updatePartitionResource")
+		for _, call := range calls {
+			st := p.StateAt(fn, call)
+			ok := p.Holds(st, p.ResultNilAtom(true, nil, "objects.NodeCollection.AddNode"))
+			c.Check("C13.f", "partition total grows only for an accepted node", call, ok, "updatePartitionResource(node capacity) runs without the fact nodes.AddNode(node) == nil: a registration that is then rejected (duplicate node id) has already inflated the partition total and the root queue maximum")
+		}
+		c.Floor("C13.f", "partition total updates in addNodeToList", len(calls), 1)
+	}
+	if fn := c.MustFunc("C13.f", "scheduler.PartitionContext.AddApplication"); fn != nil {
+		for _, call := range p.callsIn(fn, "objects.Queue.AddApplication") {
+			st := p.StateAt(fn, call)
+			ok := p.Holds(st, p.ResultNilAtom(true, nil, "placement.AppPlacementManager.PlaceApplication"))
+			c.Check("C13.f", "application reaches a queue only after placement succeeded", call, ok, "queue.AddApplication without PlaceApplication(app) == nil")
 		}
 	}
 }
